@@ -2234,4 +2234,899 @@ theorem nodup_sel_idx {h : Store} {l : List ObjId} (nd : (names h l).Nodup) {idx
     obtain ⟨b, _, hb⟩ := List.mem_filterMap.1 hy
     exact (List.inj_on_of_nodup_map nd (List.mem_of_getElem? ha) (List.mem_of_getElem? hb) e)) h1
 
+/-! ## The model passes every clause the driver evaluates on the implementation -/
+
+theorem allNamesUnique_of_inv {s : State} (inv : Inv s) (n : Nat) : allNamesUnique n s = true := by
+  simp only [allNamesUnique, List.all_eq_true, namesUniqueB, decide_eq_true_eq]
+  exact fun k _ => inv.names k
+
+theorem allOk_of_inv {s : State} (inv : Inv s) (n : Nat) : allOk n s = true := by
+  simp only [allOk, List.all_eq_true]
+  exact fun k _ i hi => inv.ok i (inv.wf k i hi)
+
+theorem clauseNames_sound (n : Nat) {s : State} (inv : Inv s) (op : Op) :
+    clauseNames n s op (step s op).1 = true := by
+  unfold clauseNames
+  by_cases hk : op.keepsNames = true
+  · rw [allNamesUnique_of_inv (inv_step inv op hk)]; simp
+  · simp [hk]
+
+
+theorem setNamespace_shape (o n : String) (l : List ObjId) (h : Store) :
+    (setNamespace h o n l).next = h.next ∧
+    ∀ i, ((setNamespace h o n l).get i).value = (h.get i).value ∧ ((setNamespace h o n l).get i).con = (h.get i).con := by
+  induction l generalizing h with
+  | nil => exact ⟨rfl, fun _ => ⟨rfl, rfl⟩⟩
+  | cons a t ih =>
+    unfold setNamespace; dsimp only
+    obtain ⟨i1, i2⟩ := ih (h.put a { h.get a with name := _ })
+    refine ⟨by rw [i1]; rfl, fun i => ?_⟩
+    obtain ⟨j1, j2⟩ := i2 i
+    rw [j1, j2]
+    by_cases e : i = a <;> simp [e]
+
+/-- valid ids and `HeapOk` survive every operation (including `setNamespace`) -/
+theorem wf_ok_step {s : State} (inv : Inv s) (op : Op) :
+    (∀ k, Valid (step s op).1.heap ((step s op).1.lists k)) ∧ HeapOk (step s op).1.heap := by
+  by_cases hk : op.keepsNames = true
+  · exact ⟨(inv_step inv op hk).wf, (inv_step inv op hk).ok⟩
+  · cases op <;> simp [Op.keepsNames] at hk
+    next k p =>
+      obtain ⟨e1, e2⟩ := setNamespace_shape (s.pre k) p (s.lists k) s.heap
+      refine ⟨fun r i hi => ?_, fun i hi => ?_⟩
+      · simp only [step] at hi ⊢; rw [e1]; exact inv.wf r i hi
+      · simp only [step] at hi ⊢
+        rw [e1] at hi
+        have := inv.ok i hi
+        simp only [Par.ok, Par.rejects] at this ⊢
+        rw [(e2 i).1, (e2 i).2]; exact this
+
+theorem clauseOk_sound (n : Nat) {s : State} (inv : Inv s) (op : Op) :
+    clauseOk n s (step s op).1 = true := by
+  unfold clauseOk
+  have : allOk n (step s op).1 = true := by
+    obtain ⟨w, o⟩ := wf_ok_step inv op
+    simp only [allOk, List.all_eq_true]
+    exact fun k _ i hi => o i (w k i hi)
+  simp [this]
+
+theorem unchanged_of {n : Nat} {b a : State} (hl : ∀ k, a.lists k = b.lists k)
+    (ho : ∀ i, i < b.heap.next → a.heap.get i = b.heap.get i) : unchanged n b a = true := by
+  simp only [unchanged, sameLists, sameObjs, Bool.and_eq_true, List.all_eq_true, List.mem_range, beq_iff_eq]
+  exact ⟨fun k _ => (hl k).symm, fun i hi => (ho i hi).symm⟩
+
+theorem unchanged_refl (n : Nat) (s : State) : unchanged n s s = true :=
+  unchanged_of (fun _ => rfl) (fun _ _ => rfl)
+
+theorem setList_same (s : State) (h : Store) (k : Nat) :
+    ∀ r, ((s.withHeap h).setList k (s.lists k)).lists r = s.lists r := by
+  intro r; simp only [State.setList, State.withHeap]; split
+  · next e => rw [e]
+  · rfl
+
+theorem addParameter_err {h : Store} {l : List ObjId} {p : Par} (e : (addParameter h l p).err ≠ none) :
+    (addParameter h l p).heap = h ∧ (addParameter h l p).list = l := by
+  unfold addParameter at e ⊢
+  split
+  · exact ⟨rfl, rfl⟩
+  · next hn => simp [hn] at e
+
+theorem setParameterValue_err {h : Store} {l : List ObjId} {n : String} {v : Rat}
+    (e : (setParameterValue h l n v).err ≠ none) : (setParameterValue h l n v).heap = h := by
+  unfold setParameterValue at e ⊢
+  cases hf : find? h l n with
+  | none => rfl
+  | some i =>
+    simp only [hf] at e ⊢
+    cases hq : (h.get i).setValue v with
+    | ok p => simp [hq] at e
+    | error x => rfl
+
+theorem shareParameter_err {h : Store} {l : List ObjId} {i : ObjId} (e : (shareParameter h l i).err ≠ none) :
+    (shareParameter h l i).heap = h ∧ (shareParameter h l i).list = l := by
+  unfold shareParameter at e ⊢
+  by_cases hn : hasParameter h l (nameOf h i) = true
+  · simp only [hn, if_true] at e ⊢
+    exact ⟨setParameterValue_err e, trivial⟩
+  · simp [hn] at e
+
+theorem setParameter_err {h : Store} {l : List ObjId} {k : Nat} {p : Par} (e : (setParameter h l k p).err ≠ none) :
+    (setParameter h l k p).heap = h ∧ (setParameter h l k p).list = l := by
+  unfold setParameter at e ⊢
+  split
+  · exact ⟨rfl, rfl⟩
+  · split
+    · exact ⟨rfl, rfl⟩
+    · next h1 h2 => simp [h1, h2] at e
+
+theorem isErr_ofErr {e : Option Err} (h : (Out.ofErr e).isErr = true) : e ≠ none := by
+  cases e <;> simp [Out.ofErr, Out.isErr] at h ⊢
+
+theorem stepLR_atomic (n : Nat) (s : State) (k : Nat) (r : LR)
+    (hr : r.err ≠ none → r.heap = s.heap ∧ r.list = s.lists k)
+    (he : (stepLR s k r).2.out.isErr = true) : unchanged n s (stepLR s k r).1 = true := by
+  obtain ⟨h1, h2⟩ := hr (isErr_ofErr he)
+  simp only [stepLR, h1, h2]
+  exact unchanged_of (setList_same s s.heap k) (fun _ _ => rfl)
+
+theorem stepHR_atomic (n : Nat) (s : State) (r : HR) (hr : r.err ≠ none → r.heap = s.heap)
+    (he : (stepHR s r).2.out.isErr = true) : unchanged n s (stepHR s r).1 = true := by
+  have h1 := hr (isErr_ofErr he)
+  simp only [stepHR, h1]
+  exact unchanged_refl n s
+
+theorem stepSub_atomic (n : Nat) (s : State) (j : Nat) (r : LR) (f : Frame s.heap r.heap [])
+    (he : (stepSub s j r).2.out.isErr = true) : unchanged n s (stepSub s j r).1 = true := by
+  unfold stepSub at he ⊢
+  split
+  · exact unchanged_of (fun _ => rfl) (fun i hi => f.same i hi (by simp))
+  · next hn => simp [hn, Out.isErr] at he
+
+theorem stepAR_atomic (n : Nat) (s : State) (r : AR) (b : Bool) (hr : r.err ≠ none → r.heap = s.heap)
+    (he : (stepAR s r b).2.out.isErr = true) : unchanged n s (stepAR s r b).1 = true := by
+  have : r.err ≠ none := by
+    intro c; simp only [stepAR, c] at he; cases b <;> simp [Out.isErr] at he
+  simp only [stepAR, hr this]
+  exact unchanged_refl n s
+
+theorem deleteParametersIdx_err {l : List ObjId} {idx : List Nat} (nd : idx.Nodup)
+    (e : (deleteParametersIdx l idx).2 ≠ none) : (deleteParametersIdx l idx).1 = l := by
+  by_cases hin : ∀ d ∈ idx, d < l.length
+  · rw [deleteParametersIdx_spec l idx nd hin] at e; simp at e
+  · simp only [not_forall, Nat.not_lt] at hin
+    obtain ⟨d, hd, hl⟩ := hin
+    rw [deleteParametersIdx_out l idx ⟨d, hd, hl⟩]
+
+/-- on a found name, the one-element sub-list never raises -/
+theorem createSubListNames_single {h : Store} {l : List ObjId} {n : String} (hf : find? h l n ≠ none) :
+    (createSubListNames h l [] [n]).err = none := by
+  cases e : find? h l n with
+  | none => exact absurd e hf
+  | some i => simp [createSubListNames, e, addParameter, hasParameter]
+
+theorem setParametersValues_err {h : Store} {l src : List ObjId}
+    (e : (setParametersValues h l src).err ≠ none) : (setParametersValues h l src).heap = h := by
+  unfold setParametersValues at e ⊢
+  split
+  · rfl
+  · next c =>
+    rw [c] at e
+    exact absurd (applySome_noerr h l src h (SameShape.refl h) (fun _ => Or.inl rfl) (checkSome_none.1 c)) e
+
+theorem setAllParametersValues_err {h : Store} {l src : List ObjId}
+    (e : (setAllParametersValues h l src).err ≠ none) : (setAllParametersValues h l src).heap = h := by
+  unfold setAllParametersValues at e ⊢
+  split
+  · rfl
+  · next c =>
+    rw [c] at e
+    exact absurd (applyAll_noerr h src l h (SameShape.refl h) (fun _ _ => rfl) (checkAll_none.1 c)) e
+
+theorem matchParametersValues_err {h : Store} {l src : List ObjId}
+    (e : (matchParametersValues h l src).err ≠ none) : (matchParametersValues h l src).heap = h := by
+  unfold matchParametersValues at e ⊢
+  split
+  · rfl
+  · next c =>
+    rw [c] at e
+    exact absurd (matchSome_noerr h l src h 0 (SameShape.refl h) (fun _ => Or.inl rfl) (checkSome_none.1 c)) e
+
+theorem apSetParameterValue_err {h : Store} {l : List ObjId} {pre n : String} {v : Rat}
+    (e : (apSetParameterValue h l pre n v).err ≠ none) : (apSetParameterValue h l pre n v).heap = h := by
+  unfold apSetParameterValue at e ⊢
+  dsimp only at e ⊢
+  cases e1 : (setParameterValue h l (pre ++ n) v).err with
+  | some x => simp only [e1]; exact setParameterValue_err (by rw [e1]; simp)
+  | none =>
+    exfalso
+    simp only [e1] at e
+    -- the name was found (the update succeeded), and names do not change
+    have hf : find? h l (pre ++ n) ≠ none := by
+      intro c; simp [setParameterValue, c] at e1
+    have ss : ∀ i ∈ l, nameOf (setParameterValue h l (pre ++ n) v).heap i = nameOf h i := by
+      intro i _
+      unfold setParameterValue
+      split
+      · rfl
+      · next t _ =>
+        split
+        · next q hq =>
+          have := (setValue_ok hq).1
+          by_cases c : i = t
+          · subst c; simp [nameOf, this]
+          · simp [nameOf, c]
+        · rfl
+    have := createSubListNames_single (h := (setParameterValue h l (pre ++ n) v).heap) (l := l) (n := pre ++ n)
+      (by rw [find?_congr ss]; exact hf)
+    simp [this] at e
+
+theorem apMatchParametersValues_err {h : Store} {l src : List ObjId} (nd : (names h src).Nodup)
+    (e : (apMatchParametersValues h l src).err ≠ none) : (apMatchParametersValues h l src).heap = h := by
+  unfold apMatchParametersValues at e ⊢
+  dsimp only at e ⊢
+  cases e1 : (matchParametersValues h l src).err with
+  | some x =>
+    simp only [e1]
+    exact matchParametersValues_err (by rw [e1]; simp)
+  | none =>
+    exfalso
+    simp only [e1] at e
+    split at e
+    · have chk : checkSome h l src = none := by
+        unfold matchParametersValues at e1
+        split at e1
+        · simp at e1
+        · assumption
+      have sp := matchSome_spec l src h 0 nd (checkSome_none.1 chk)
+      have hm : matchParametersValues h l src = matchSome h l 0 src := by simp [matchParametersValues, chk]
+      rw [hm] at e
+      have hsorted : (matchSome h l 0 src).pos.Nodup := by
+        rw [sp.2.1]; exact (diffPos_sorted h l src 0).imp (fun h => Nat.ne_of_lt h)
+      rw [shareSubListIdx_eq, shareParameters_spec _ _ [] (by
+        simpa using nodup_sel_idx (h := (matchSome h l 0 src).heap) (l := src) (by rw [sp.2.2.1.names]; exact nd) hsorted)] at e
+      simp at e
+    · simp at e
+
+theorem clauseAtomic_sound (n : Nat) {s : State} (inv : Inv s) (op : Op) :
+    clauseAtomic n s op (step s op).2.out (step s op).1 = true := by
+  unfold clauseAtomic
+  by_cases ha : op.atomic = true
+  swap
+  · simp [ha]
+  by_cases he : (step s op).2.out.isErr = true
+  swap
+  · simp [he]
+  simp only [ha, he, Bool.and_self, Bool.not_true, Bool.false_or]
+  cases op with
+  | add k p | addPtr k p =>
+    simp only [step] at he ⊢
+    split at he
+    · simp only [*, ite_true]; exact unchanged_refl n s
+    · next hp => simp only [hp, ite_false] ; exact stepLR_atomic n s k _ addParameter_err he
+  | share k j nm =>
+    simp only [step] at he ⊢
+    split
+    · exact unchanged_refl n s
+    · next i e => simp only [e] at he; exact stepLR_atomic n s k _ shareParameter_err he
+  | setParam k i p =>
+    simp only [step] at he ⊢
+    split at he
+    · simp only [*, ite_true]; exact unchanged_refl n s
+    · next hp => simp only [hp, ite_false]; exact stepLR_atomic n s k _ setParameter_err he
+  | setValue k nm v => exact stepHR_atomic n s _ setParameterValue_err he
+  | setAllValues k j =>
+    exact stepHR_atomic n s _ setAllParametersValues_err he
+  | setValues k j =>
+    exact stepHR_atomic n s _ setParametersValues_err he
+  | testValues k j => simp only [step]; split <;> exact unchanged_refl n s
+  | matchValues k j w =>
+    simp only [step] at he ⊢
+    cases e' : (matchParametersValues s.heap (s.lists k) (s.lists j)).err with
+    | none => simp [e', Out.isErr] at he
+    | some x =>
+      rw [matchParametersValues_err (by rw [e']; simp)]
+      exact unchanged_refl n s
+  | delName k nm =>
+    simp only [step] at he ⊢
+    split
+    · next l e => simp [e, Out.isErr] at he
+    · exact unchanged_refl n s
+  | delIdx k i =>
+    simp only [step] at he ⊢
+    split
+    · next l e => simp [e, Out.isErr] at he
+    · exact unchanged_refl n s
+  | delIdxs k idx =>
+    simp only [Op.atomic, decide_eq_true_eq] at ha
+    simp only [step] at he ⊢
+    have := deleteParametersIdx_err (l := s.lists k) ha (isErr_ofErr he)
+    rw [this]
+    exact unchanged_of (fun r => by simp only [State.setList]; split <;> simp_all) (fun _ _ => rfl)
+  | subNames k j ns => exact stepSub_atomic n s j _ (createSubListNames_frame ..) he
+  | subName k j nm => exact stepSub_atomic n s j _ (createSubListNames_frame ..) he
+  | subIdxs k j idx => exact stepSub_atomic n s j _ (createSubListIdx_frame ..) he
+  | subIdx k j i => exact stepSub_atomic n s j _ (createSubListIdx_frame ..) he
+  | which k nm => simp only [step]; split <;> exact unchanged_refl n s
+  | getValue k nm => simp only [step]; split <;> exact unchanged_refl n s
+  | apSetAll k j =>
+    refine stepAR_atomic n s _ _ (fun e => ?_) he
+    unfold apSetAllParametersValues at e ⊢; dsimp only at e ⊢
+    cases e' : (setAllParametersValues s.heap (s.lists k) (s.lists j)).err with
+    | none => simp [e'] at e
+    | some x => simp only [e']; exact setAllParametersValues_err (by rw [e']; simp)
+  | apSetValue k nm v => exact stepAR_atomic n s _ _ apSetParameterValue_err he
+  | apSetValues k j =>
+    refine stepAR_atomic n s _ _ (fun e => ?_) he
+    unfold apSetParametersValues at e ⊢; dsimp only at e ⊢
+    cases e' : (setParametersValues s.heap (s.lists k) (s.lists j)).err with
+    | none => simp [e'] at e
+    | some x => simp only [e']; exact setParametersValues_err (by rw [e']; simp)
+  | apMatch k j => exact stepAR_atomic n s _ _ (apMatchParametersValues_err (inv.names j)) he
+  | _ => simp [Op.atomic] at ha
+
+
+theorem clauseFrame_sound (n : Nat) (s : State) (op : Op) : clauseFrame n s op (step s op).1 = true := by
+  obtain ⟨f, d⟩ := frame_step s op
+  simp only [clauseFrame, Bool.and_eq_true, List.all_eq_true, List.mem_range, Bool.or_eq_true, List.any_eq_true,
+    List.contains_iff_mem, beq_iff_eq]
+  refine ⟨fun i hi => ?_, fun r _ => ?_⟩
+  · by_cases hw : i ∈ op.writes.flatMap s.lists
+    · left
+      obtain ⟨r, hr, hir⟩ := List.mem_flatMap.1 hw
+      exact ⟨r, hr, hir⟩
+    · right; exact f.same i hi hw
+  · by_cases hd : op.dest = some r
+    · left; exact hd
+    · right; exact d r hd
+
+/-! ### bulk_applies as an equation on every object -/
+
+theorem acceptsSome_iff (h : Store) (l src : List ObjId) :
+    acceptsSome h l src = true ↔
+      ∀ s ∈ src, ∀ t, find? h l (nameOf h s) = some t → (h.get t).rejects (h.get s).value = false := by
+  simp only [acceptsSome, List.all_eq_true]
+  constructor
+  · intro H s hs t ht; have := H s hs; simpa [ht] using this
+  · intro H s hs
+    cases e : find? h l (nameOf h s) with
+    | none => rfl
+    | some t => simpa using H s hs t e
+
+theorem acceptsAll_iff (h : Store) (l src : List ObjId) :
+    acceptsAll h l src = true ↔
+      ∀ i ∈ l, ∃ j, find? h src (nameOf h i) = some j ∧ (h.get i).rejects (h.get j).value = false := by
+  simp only [acceptsAll, List.all_eq_true]
+  constructor
+  · intro H i hi
+    have := H i hi
+    cases e : find? h src (nameOf h i) with
+    | none => simp [e] at this
+    | some j => exact ⟨j, rfl, by simpa [e] using this⟩
+  · intro H i hi
+    obtain ⟨j, e, hr⟩ := H i hi
+    simp [e, hr]
+
+theorem par_ext {p q : Par} (h1 : p.name = q.name) (h2 : p.value = q.value) (h3 : p.con = q.con) : p = q := by
+  cases p; cases q; simp_all
+
+/-- the effect described by `bulk_applies_*` is `expectedSome` on every object -/
+theorem expectedSome_of_spec {h h' : Store} {l src : List ObjId} (ss : SameShape h h')
+    (hv : ∀ s ∈ src, ∀ t, find? h l (nameOf h s) = some t → (h'.get t).value = (h.get s).value)
+    (hu : ∀ i, (∀ s ∈ src, find? h l (nameOf h s) ≠ some i) → h'.get i = h.get i) (i : ObjId) :
+    h'.get i = expectedSome h l src i := by
+  unfold expectedSome
+  cases e : src.find? (fun s => find? h l (nameOf h s) == some i) with
+  | none =>
+    rw [List.find?_eq_none] at e
+    exact hu i (fun s hs c => by have := e s hs; simp [c] at this)
+  | some s =>
+    have hs := List.mem_of_find?_eq_some e
+    have hp := List.find?_some e
+    simp only [beq_iff_eq] at hp
+    exact par_ext (ss i).1 (hv s hs i hp) (ss i).2
+
+theorem expectedAll_of_spec {h h' : Store} {l src : List ObjId} (ss : SameShape h h')
+    (hv : ∀ i ∈ l, ∀ j, find? h src (nameOf h i) = some j → (h'.get i).value = (h.get j).value)
+    (hu : ∀ i, i ∉ l → h'.get i = h.get i)
+    (hall : ∀ i ∈ l, ∃ j, find? h src (nameOf h i) = some j ∧ (h.get i).rejects (h.get j).value = false)
+    (i : ObjId) : h'.get i = expectedAll h l src i := by
+  unfold expectedAll
+  by_cases hi : i ∈ l
+  · obtain ⟨j, e, _⟩ := hall i hi
+    simp only [hi, if_true, e]
+    exact par_ext (ss i).1 (hv i hi j e) (ss i).2
+  · simp only [hi, if_false]; exact hu i hi
+
+theorem setParametersValues_expected {h : Store} {l src : List ObjId} (nd : (names h src).Nodup)
+    (ok : (setParametersValues h l src).err = none) (i : ObjId) :
+    (setParametersValues h l src).heap.get i = expectedSome h l src i := by
+  have c : checkSome h l src = none := by
+    unfold setParametersValues at ok; split at ok
+    · simp at ok
+    · assumption
+  have sp := applySome_spec l src h nd (checkSome_none.1 c)
+  simp only [setParametersValues, c]
+  exact expectedSome_of_spec sp.2.1 sp.2.2.2.1 sp.2.2.2.2 i
+
+theorem matchParametersValues_expected {h : Store} {l src : List ObjId} (nd : (names h src).Nodup)
+    (ok : (matchParametersValues h l src).err = none) :
+    (∀ i, (matchParametersValues h l src).heap.get i = expectedSome h l src i) ∧
+    (matchParametersValues h l src).pos = diffPos h l 0 src ∧
+    SameShape h (matchParametersValues h l src).heap := by
+  have c : checkSome h l src = none := by
+    unfold matchParametersValues at ok; split at ok
+    · simp at ok
+    · assumption
+  have sp := matchSome_spec l src h 0 nd (checkSome_none.1 c)
+  simp only [matchParametersValues, c]
+  exact ⟨expectedSome_of_spec sp.2.2.1 sp.2.2.2.2.1 sp.2.2.2.2.2, sp.2.1, sp.2.2.1⟩
+
+theorem setAllParametersValues_expected {h : Store} {l src : List ObjId} (nd : (names h l).Nodup)
+    (ok : (setAllParametersValues h l src).err = none) (i : ObjId) :
+    (setAllParametersValues h l src).heap.get i = expectedAll h l src i := by
+  have c : checkAll h src l = none := by
+    unfold setAllParametersValues at ok; split at ok
+    · simp at ok
+    · assumption
+  have sp := applyAll_spec src l h nd (checkAll_none.1 c)
+  simp only [setAllParametersValues, c]
+  exact expectedAll_of_spec sp.2.1 sp.2.2.2.1 sp.2.2.2.2 (checkAll_none.1 c) i
+
+theorem setParametersValues_err_iff (h : Store) (l src : List ObjId) :
+    ((setParametersValues h l src).err = none) ↔ acceptsSome h l src = true := by
+  rw [acceptsSome_iff, ← checkSome_none]
+  unfold setParametersValues
+  cases c : checkSome h l src with
+  | none => simp [applySome_noerr h l src h (SameShape.refl h) (fun _ => Or.inl rfl) (checkSome_none.1 c)]
+  | some e => simp
+
+theorem matchParametersValues_err_iff (h : Store) (l src : List ObjId) :
+    ((matchParametersValues h l src).err = none) ↔ acceptsSome h l src = true := by
+  rw [acceptsSome_iff, ← checkSome_none]
+  unfold matchParametersValues
+  cases c : checkSome h l src with
+  | none => simp [matchSome_noerr h l src h 0 (SameShape.refl h) (fun _ => Or.inl rfl) (checkSome_none.1 c)]
+  | some e => simp
+
+theorem setAllParametersValues_err_iff (h : Store) (l src : List ObjId) :
+    ((setAllParametersValues h l src).err = none) ↔ acceptsAll h l src = true := by
+  rw [acceptsAll_iff, ← checkAll_none]
+  unfold setAllParametersValues
+  cases c : checkAll h src l with
+  | none => simp [applyAll_noerr h src l h (SameShape.refl h) (fun _ _ => rfl) (checkAll_none.1 c)]
+  | some e => simp
+
+theorem isErr_ofErr_eq (e : Option Err) : (Out.ofErr e).isErr = !e.isNone := by
+  cases e <;> rfl
+
+
+/-- the owner's `matchParametersValues`, under unique source names -/
+theorem apMatchParametersValues_spec (h : Store) (l src : List ObjId) (nd : (names h src).Nodup) :
+    let m := matchParametersValues h l src
+    let r := apMatchParametersValues h l src
+    r.heap = m.heap ∧ r.err = m.err ∧
+    (m.err = none → r.flag = decide (m.pos ≠ []) ∧
+      r.fired = if m.pos = [] then none else some (m.pos.filterMap (src[·]?))) ∧
+    (m.err ≠ none → r.fired = none) := by
+  cases e1 : (matchParametersValues h l src).err with
+  | some x => simp [apMatchParametersValues, e1]
+  | none =>
+    obtain ⟨_, hp, ss⟩ := matchParametersValues_expected nd e1
+    have hsorted : (matchParametersValues h l src).pos.Nodup := by
+      rw [hp]; exact (diffPos_sorted h l src 0).imp (fun h => Nat.ne_of_lt h)
+    simp only [apMatchParametersValues, e1]
+    by_cases he : (matchParametersValues h l src).pos = []
+    · simp [he]
+    · simp only [ne_eq, he, not_false_eq_true, if_true, if_false, decide_true]
+      rw [shareSubListIdx_eq, shareParameters_spec _ _ [] (by
+        simpa using nodup_sel_idx (h := (matchParametersValues h l src).heap) (l := src)
+          (by rw [ss.names]; exact nd) hsorted)]
+      simp
+
+theorem apSetParametersValues_spec (h : Store) (l src : List ObjId) :
+    (apSetParametersValues h l src).heap = (setParametersValues h l src).heap ∧
+    (apSetParametersValues h l src).err = (setParametersValues h l src).err ∧
+    (apSetParametersValues h l src).fired =
+      if (setParametersValues h l src).err = none then some src else none := by
+  unfold apSetParametersValues; dsimp only
+  cases e : (setParametersValues h l src).err <;> simp
+
+theorem apSetAllParametersValues_spec (h : Store) (l src : List ObjId) :
+    (apSetAllParametersValues h l src).heap = (setAllParametersValues h l src).heap ∧
+    (apSetAllParametersValues h l src).err = (setAllParametersValues h l src).err ∧
+    (apSetAllParametersValues h l src).fired =
+      if (setAllParametersValues h l src).err = none then some src else none := by
+  unfold apSetAllParametersValues; dsimp only
+  cases e : (setAllParametersValues h l src).err <;> simp
+
+theorem decide_forall_lt {n : Nat} {P : Nat → Prop} [DecidablePred P] (h : ∀ i, P i) :
+    decide (∀ i, i < n → P i) = true := decide_eq_true (fun i _ => h i)
+
+theorem clauseApplies_sound {s : State} (inv : Inv s) (op : Op) :
+    clauseApplies s op (step s op).2.out (step s op).1 = true := by
+  have nuj : ∀ j, namesUniqueB s j = true := fun j => by simp [namesUniqueB, inv.names j]
+  cases op with
+  | setValues k j =>
+    simp only [clauseApplies, step, stepHR, State.withHeap]
+    cases e : (setParametersValues s.heap (s.lists k) (s.lists j)).err with
+    | none =>
+      have a := (setParametersValues_err_iff s.heap (s.lists k) (s.lists j)).1 e
+      simp only [Out.ofErr, Out.isErr, a, nuj]
+      simp [setParametersValues_expected (inv.names j) e]
+    | some x =>
+      have a : acceptsSome s.heap (s.lists k) (s.lists j) = false := by
+        rw [← Bool.not_eq_true, ← setParametersValues_err_iff, e]; simp
+      simp [Out.ofErr, Out.isErr, a]
+  | matchValues k j w =>
+    simp only [clauseApplies, step, State.withHeap]
+    cases e : (matchParametersValues s.heap (s.lists k) (s.lists j)).err with
+    | none =>
+      have a := (matchParametersValues_err_iff s.heap (s.lists k) (s.lists j)).1 e
+      simp only [Out.isErr, a, nuj]
+      simp [(matchParametersValues_expected (inv.names j) e).1]
+    | some x =>
+      have a : acceptsSome s.heap (s.lists k) (s.lists j) = false := by
+        rw [← Bool.not_eq_true, ← matchParametersValues_err_iff, e]; simp
+      simp [Out.isErr, a]
+  | apSetValues k j =>
+    obtain ⟨h1, h2, _⟩ := apSetParametersValues_spec s.heap (s.lists k) (s.lists j)
+    simp only [clauseApplies, step, stepAR, State.withHeap, h1, h2]
+    cases e : (setParametersValues s.heap (s.lists k) (s.lists j)).err with
+    | none =>
+      have a := (setParametersValues_err_iff s.heap (s.lists k) (s.lists j)).1 e
+      simp only [Out.isErr, a, nuj]
+      simp [setParametersValues_expected (inv.names j) e]
+    | some x =>
+      have a : acceptsSome s.heap (s.lists k) (s.lists j) = false := by
+        rw [← Bool.not_eq_true, ← setParametersValues_err_iff, e]; simp
+      simp [Out.isErr, a]
+  | apMatch k j =>
+    obtain ⟨h1, h2, _, _⟩ := apMatchParametersValues_spec s.heap (s.lists k) (s.lists j) (inv.names j)
+    simp only [clauseApplies, step, stepAR, State.withHeap, h1, h2]
+    cases e : (matchParametersValues s.heap (s.lists k) (s.lists j)).err with
+    | none =>
+      have a := (matchParametersValues_err_iff s.heap (s.lists k) (s.lists j)).1 e
+      simp only [Out.isErr, a, nuj]
+      simp [(matchParametersValues_expected (inv.names j) e).1]
+    | some x =>
+      have a : acceptsSome s.heap (s.lists k) (s.lists j) = false := by
+        rw [← Bool.not_eq_true, ← matchParametersValues_err_iff, e]; simp
+      simp [Out.isErr, a]
+  | testValues k j =>
+    simp only [clauseApplies, step, testParametersValues]
+    cases c : checkSome s.heap (s.lists k) (s.lists j) with
+    | none =>
+      have a := (acceptsSome_iff s.heap (s.lists k) (s.lists j)).2 (checkSome_none.1 c)
+      simp [Out.isErr, a]
+    | some x =>
+      have a : acceptsSome s.heap (s.lists k) (s.lists j) = false := by
+        rw [← Bool.not_eq_true, acceptsSome_iff, ← checkSome_none, c]; simp
+      simp [Out.isErr, a]
+  | setAllValues k j =>
+    simp only [clauseApplies, step, stepHR, State.withHeap]
+    cases e : (setAllParametersValues s.heap (s.lists k) (s.lists j)).err with
+    | none =>
+      have a := (setAllParametersValues_err_iff s.heap (s.lists k) (s.lists j)).1 e
+      simp only [Out.ofErr, Out.isErr, a, nuj]
+      simp [setAllParametersValues_expected (inv.names k) e]
+    | some x =>
+      have a : acceptsAll s.heap (s.lists k) (s.lists j) = false := by
+        rw [← Bool.not_eq_true, ← setAllParametersValues_err_iff, e]; simp
+      simp [Out.ofErr, Out.isErr, a]
+  | apSetAll k j =>
+    obtain ⟨h1, h2, _⟩ := apSetAllParametersValues_spec s.heap (s.lists k) (s.lists j)
+    simp only [clauseApplies, step, stepAR, State.withHeap, h1, h2]
+    cases e : (setAllParametersValues s.heap (s.lists k) (s.lists j)).err with
+    | none =>
+      have a := (setAllParametersValues_err_iff s.heap (s.lists k) (s.lists j)).1 e
+      simp only [Out.isErr, a, nuj]
+      simp [setAllParametersValues_expected (inv.names k) e]
+    | some x =>
+      have a : acceptsAll s.heap (s.lists k) (s.lists j) = false := by
+        rw [← Bool.not_eq_true, ← setAllParametersValues_err_iff, e]; simp
+      simp [Out.isErr, a]
+  | _ => rfl
+
+
+theorem clauseMatch_sound {s : State} (inv : Inv s) (op : Op) :
+    clauseMatch s op (step s op).2.out (step s op).2.fired = true := by
+  have nuj : ∀ j, namesUniqueB s j = true := fun j => by simp [namesUniqueB, inv.names j]
+  cases op with
+  | matchValues k j w =>
+    simp only [clauseMatch, step]
+    cases e : (matchParametersValues s.heap (s.lists k) (s.lists j)).err with
+    | none =>
+      simp only [Out.isErr, nuj, (matchParametersValues_expected (inv.names j) e).2.1]
+      simp
+    | some x => simp [Out.isErr]
+  | testValues k j =>
+    simp only [clauseMatch, step, testParametersValues]
+    cases c : checkSome s.heap (s.lists k) (s.lists j) with
+    | none =>
+      simp only [Out.isErr, testSome_eq s.heap (s.lists k) (s.lists j) 0]
+      cases diffPos s.heap (s.lists k) 0 (s.lists j) <;> simp
+    | some x => simp [Out.isErr]
+  | apMatch k j =>
+    obtain ⟨_, h2, h3, h4⟩ := apMatchParametersValues_spec s.heap (s.lists k) (s.lists j) (inv.names j)
+    simp only [clauseMatch, step, stepAR, h2]
+    cases e : (matchParametersValues s.heap (s.lists k) (s.lists j)).err with
+    | none =>
+      obtain ⟨f1, f2⟩ := h3 e
+      simp only [Out.isErr, nuj, f1, f2, (matchParametersValues_expected (inv.names j) e).2.1]
+      simp
+    | some x => simp [Out.isErr]
+  | apSetAll k j =>
+    obtain ⟨_, h2, h3⟩ := apSetAllParametersValues_spec s.heap (s.lists k) (s.lists j)
+    simp only [clauseMatch, step, stepAR, h2, h3]
+    cases e : (setAllParametersValues s.heap (s.lists k) (s.lists j)).err <;> simp [Out.isErr]
+  | apSetValues k j =>
+    obtain ⟨_, h2, h3⟩ := apSetParametersValues_spec s.heap (s.lists k) (s.lists j)
+    simp only [clauseMatch, step, stepAR, h2, h3]
+    cases e : (setParametersValues s.heap (s.lists k) (s.lists j)).err <;> simp [Out.isErr]
+  | _ => rfl
+
+theorem freshWith_of {b a : State} {j : Nat} {content : List Par}
+    (h1 : (a.lists j).map a.heap.get = content) (h2 : ∀ i ∈ a.lists j, b.heap.next ≤ i)
+    (h3 : (a.lists j).Nodup) : freshWith b a j content = true := by
+  simp only [freshWith, Bool.and_eq_true, decide_eq_true_eq, List.all_eq_true]
+  exact ⟨⟨h1, h2⟩, h3⟩
+
+theorem range'_fresh (n m : Nat) : (∀ i ∈ List.range' n m, n ≤ i) ∧ (List.range' n m).Nodup := by
+  refine ⟨fun i hi => (List.mem_range'_1.1 hi).1, List.nodup_range'⟩
+
+theorem setList_self (s : State) (h : Store) (j : Nat) (l : List ObjId) :
+    ((s.withHeap h).setList j l).lists j = l := by simp [State.setList]
+
+/-- `createSubList` through `addParameters`: what a successful / failing call looks like -/
+theorem addParameters_nil_sel (sel : List ObjId) (h : Store) (vs : Valid h sel) (nd : (names h sel).Nodup) :
+    let r := addParameters h [] sel
+    r.err = none ∧ r.list = List.range' h.next sel.length ∧ r.list.map r.heap.get = sel.map h.get := by
+  obtain ⟨i1, i2, _, i4, _⟩ := addParameters_spec sel h [] (Valid.nil _) vs (by simpa using nd)
+  simp only [List.nil_append] at i2
+  exact ⟨i1, i2, by rw [i2]; exact i4⟩
+
+theorem names_filterMap_find? {h : Store} {l : List ObjId} {ns : List String}
+    (all : ∀ n ∈ ns, find? h l n ≠ none) : names h (ns.filterMap (find? h l)) = ns := by
+  induction ns with
+  | nil => rfl
+  | cons n rest ih =>
+    cases e : find? h l n with
+    | none => exact absurd e (all n (List.mem_cons_self ..))
+    | some i =>
+      simp only [List.filterMap_cons, e, names, List.map_cons, (find?_some e).2]
+      congr 1
+      exact ih (fun n' hn' => all n' (List.mem_cons_of_mem _ hn'))
+
+theorem valid_filterMap_find? {h : Store} {l : List ObjId} (v : Valid h l) (ns : List String) :
+    Valid h (ns.filterMap (find? h l)) := by
+  intro i hi
+  obtain ⟨n, _, hn⟩ := List.mem_filterMap.1 hi
+  exact find?_valid v hn
+
+theorem valid_filterMap_idx {h : Store} {l : List ObjId} (v : Valid h l) (idx : List Nat) :
+    Valid h (idx.filterMap (l[·]?)) := by
+  intro i hi
+  obtain ⟨n, _, hn⟩ := List.mem_filterMap.1 hi
+  exact getElem?_valid v hn
+
+/-- a repeated name makes `addParameters` raise -/
+theorem addParameters_dup_err (src : List ObjId) (h : Store) (l : List ObjId) (v : Valid h l) (vs : Valid h src)
+    (dup : ¬ (names h (l ++ src)).Nodup) (ndl : (names h l).Nodup) : (addParameters h l src).err ≠ none := by
+  induction src generalizing h l with
+  | nil => simp at dup; exact absurd ndl dup
+  | cons i rest ih =>
+    have hi := vs i (List.mem_cons_self ..)
+    have vr : Valid h rest := fun j hj => vs j (List.mem_cons_of_mem _ hj)
+    unfold addParameters; dsimp only
+    by_cases hn : hasParameter h l (nameOf h i) = true
+    · have : (addParameter h l (h.get i)).err = some .bpp := by
+        simp [addParameter, show hasParameter h l (h.get i).name = true from hn]
+      simp [this]
+    · have e1 : addParameter h l (h.get i) = { heap := (h.alloc (h.get i)).1, list := l ++ [h.next] } := by
+        simp only [Bool.not_eq_true] at hn
+        simp [addParameter, show hasParameter h l (h.get i).name = false from hn]
+      rw [e1]; dsimp only
+      have pr := pres_clone h hi
+      have g := addParameter_good (h := h) (l := l) (h.get i) v (fun hk => hk i hi)
+      rw [e1] at g
+      have en : names (h.alloc (h.get i)).1 ((l ++ [h.next]) ++ rest) = names h (l ++ i :: rest) := by
+        simp only [names_append]
+        rw [pr.names v, pr.names vr]
+        simp [names, nameOf]
+      apply ih (h.alloc (h.get i)).1 (l ++ [h.next]) g.valid (vr.mono pr)
+      · rw [en]; exact dup
+      · exact g.nodup ndl
+
+theorem clauseFresh_sound {s : State} (inv : Inv s) (op : Op) :
+    clauseFresh s op (step s op).2.out (step s op).1 = true := by
+  cases op with
+  | copy k j | assign k j =>
+    obtain ⟨_, _, p3, p4, p5, _⟩ := cloneAll_spec (s.lists k) s.heap (inv.wf k)
+    simp only [clauseFresh, step]
+    apply freshWith_of
+    · rw [setList_self]; exact p5
+    · rw [setList_self]; exact p3
+    · rw [setList_self]; exact p4
+  | subNames k j ns =>
+    simp only [clauseFresh, step]
+    split
+    · next hc =>
+      simp only [Bool.and_eq_true, decide_eq_true_eq, List.all_eq_true] at hc
+      have all : ∀ n ∈ ns, find? s.heap (s.lists k) n ≠ none := fun n hn c => by
+        have := hc.2 n hn; simp [c] at this
+      rw [createSubListNames_eq _ ns s.heap [] (inv.wf k) (Valid.nil _) all]
+      obtain ⟨i1, i2, i3⟩ := addParameters_nil_sel _ s.heap (valid_filterMap_find? (inv.wf k) ns)
+        (by rw [names_filterMap_find? all]; exact hc.1)
+      simp only [stepSub, i1, Bool.and_eq_true, beq_self_eq_true, true_and]
+      apply freshWith_of
+      · rw [setList_self]; exact i3
+      · rw [setList_self, i2]; exact (range'_fresh _ _).1
+      · rw [setList_self, i2]; exact (range'_fresh _ _).2
+    · next hc =>
+      -- a missing or repeated name: the call raises
+      simp only [Bool.and_eq_true, decide_eq_true_eq, List.all_eq_true, not_and] at hc
+      have herr : (createSubListNames s.heap (s.lists k) [] ns).err ≠ none := by
+        intro c
+        have all := createSubListNames_found _ ns s.heap [] (inv.wf k) (Valid.nil _) c
+        have hdup : ¬ ns.Nodup := fun nd => hc nd (fun n hn => by
+          cases e : find? s.heap (s.lists k) n with
+          | none => exact absurd e (all n hn)
+          | some i => rfl)
+        rw [createSubListNames_eq _ ns s.heap [] (inv.wf k) (Valid.nil _) all] at c
+        exact addParameters_dup_err _ s.heap [] (Valid.nil _) (valid_filterMap_find? (inv.wf k) ns)
+          (by simpa [names_filterMap_find? all] using hdup) List.nodup_nil c
+      cases e : (createSubListNames s.heap (s.lists k) [] ns).err with
+      | none => exact absurd e herr
+      | some x => simp [stepSub, e, Out.isErr]
+  | subName k j n =>
+    simp only [clauseFresh, step]
+    cases e : find? s.heap (s.lists k) n with
+    | none => simp [createSubListNames, e, stepSub]
+    | some i =>
+      have all : ∀ n' ∈ [n], find? s.heap (s.lists k) n' ≠ none := by simp [e]
+      rw [createSubListNames_eq _ [n] s.heap [] (inv.wf k) (Valid.nil _) all]
+      obtain ⟨i1, i2, i3⟩ := addParameters_nil_sel ([n].filterMap (find? s.heap (s.lists k))) s.heap
+        (valid_filterMap_find? (inv.wf k) [n]) (by rw [names_filterMap_find? all]; simp)
+      simp only [stepSub, i1, Bool.and_eq_true, beq_self_eq_true, true_and]
+      apply freshWith_of
+      · rw [setList_self]; exact i3.trans (by simp [e])
+      · rw [setList_self, i2]; exact (range'_fresh _ _).1
+      · rw [setList_self, i2]; exact (range'_fresh _ _).2
+  | subIdxs k j idx =>
+    simp only [clauseFresh, step]
+    by_cases hidx : idx.Nodup
+    swap
+    · simp [hidx]
+    rw [createSubListIdx_eq]
+    obtain ⟨i1, i2, i3⟩ := addParameters_nil_sel (idx.filterMap ((s.lists k)[·]?)) s.heap
+      (valid_filterMap_idx (inv.wf k) idx) (nodup_sel_idx (inv.names k) hidx)
+    simp only [stepSub, i1, Bool.or_eq_true, Bool.and_eq_true, beq_self_eq_true, true_and]
+    right
+    apply freshWith_of
+    · rw [setList_self]; exact i3
+    · rw [setList_self, i2]; exact (range'_fresh _ _).1
+    · rw [setList_self, i2]; exact (range'_fresh _ _).2
+  | subIdx k j i =>
+    simp only [clauseFresh, step]
+    rw [createSubListIdx_eq]
+    obtain ⟨i1, i2, i3⟩ := addParameters_nil_sel ([i].filterMap ((s.lists k)[·]?)) s.heap
+      (valid_filterMap_idx (inv.wf k) [i]) (nodup_sel_idx (inv.names k) (by simp))
+    simp only [stepSub, i1, Bool.and_eq_true, beq_self_eq_true, true_and]
+    apply freshWith_of
+    · rw [setList_self]; exact i3
+    · rw [setList_self, i2]; exact (range'_fresh _ _).1
+    · rw [setList_self, i2]; exact (range'_fresh _ _).2
+  | common k j m =>
+    obtain ⟨_, _, p3, p4, p5, _, _⟩ := getCommon_spec (s.lists k) s.heap (s.lists j) s.heap (inv.wf j)
+      (Nat.le_refl _) (fun _ _ => rfl) (Pres.refl _)
+    simp only [clauseFresh, step, Bool.and_eq_true, beq_self_eq_true, true_and]
+    apply freshWith_of
+    · rw [setList_self]; exact p5
+    · rw [setList_self]; exact p3
+    · rw [setList_self]; exact p4
+  | _ => rfl
+
+
+theorem all_isSome_iff {h : Store} {l : List ObjId} {ns : List String} :
+    (ns.all (fun n => (find? h l n).isSome) = true) ↔ ∀ n ∈ ns, find? h l n ≠ none := by
+  simp only [List.all_eq_true]
+  constructor
+  · intro H n hn c; have := H n hn; simp [c] at this
+  · intro H n hn
+    cases e : find? h l n with
+    | none => exact absurd e (H n hn)
+    | some i => rfl
+
+theorem clauseShare_sound {s : State} (inv : Inv s) (op : Op) :
+    clauseShare s op (step s op).2.out (step s op).1 = true := by
+  cases op with
+  | shareSubNames k j ns =>
+    simp only [clauseShare, step]
+    split
+    · next hc =>
+      have all := all_isSome_iff.1 hc
+      by_cases hns : ns.Nodup
+      swap
+      · simp [hns]
+      rw [shareSubListNames_eq _ ns s.heap [] (inv.wf k) (Valid.nil _) all,
+        shareParameters_spec _ s.heap [] (by simpa [names_filterMap_find? all] using hns)]
+      simp [stepSub, State.setList]
+    · next hc =>
+      have herr : (shareSubListNames s.heap (s.lists k) [] ns).err ≠ none := fun c =>
+        hc (all_isSome_iff.2 (shareSubListNames_found _ ns s.heap [] (inv.wf k) (Valid.nil _) c))
+      cases e : (shareSubListNames s.heap (s.lists k) [] ns).err with
+      | none => exact absurd e herr
+      | some x => simp [stepSub, e, Out.isErr]
+  | shareSubIdxs k j idx =>
+    simp only [clauseShare, step]
+    by_cases hidx : idx.Nodup
+    swap
+    · simp [hidx]
+    rw [shareSubListIdx_eq, shareParameters_spec _ s.heap [] (by simpa using nodup_sel_idx (inv.names k) hidx)]
+    simp [stepSub, State.setList]
+  | share k j nm =>
+    simp only [clauseShare, step]
+    cases e : find? s.heap (s.lists j) nm with
+    | none => simp
+    | some i =>
+      have hn := (find?_some e).2
+      simp only [stepLR, shareParameter, hn]
+      by_cases hc : hasParameter s.heap (s.lists k) nm = true
+      · simp [hc, State.setList]
+      · simp [hc, State.setList, Out.ofErr]
+  | _ => rfl
+
+theorem clauseDelete_sound {s : State} (op : Op) :
+    clauseDelete s op (step s op).2.out (step s op).1 = true := by
+  cases op with
+  | delIdxs k idx =>
+    simp only [clauseDelete, step]
+    by_cases hidx : idx.Nodup
+    swap
+    · simp [hidx]
+    split
+    · next hc =>
+      simp only [List.all_eq_true, decide_eq_true_eq] at hc
+      rw [deleteParametersIdx_spec _ idx hidx hc]
+      simp [State.setList, Out.ofErr]
+    · next hc =>
+      simp only [List.all_eq_true, decide_eq_true_eq, not_forall, Nat.not_lt] at hc
+      obtain ⟨d, hd, hl⟩ := hc
+      rw [deleteParametersIdx_out _ idx ⟨d, hd, hl⟩]
+      simp [State.setList, Out.ofErr]
+  | delIdx k i =>
+    simp only [clauseDelete, step, deleteParameterIdx]
+    by_cases hi : i < (s.lists k).length
+    · simp [hi, Nat.not_le.2 hi, State.setList]
+    · simp [hi, Nat.not_lt.1 hi]
+  | delName k nm =>
+    obtain ⟨a, b⟩ := deleteParameter_names s.heap (s.lists k) nm
+    simp only [clauseDelete, step]
+    cases e : deleteParameter s.heap (s.lists k) nm with
+    | ok l' =>
+      obtain ⟨a1, a2⟩ := a l' e
+      simp [(hasParameter_iff _ _ _).2 a2, State.setList, a1]
+    | error x =>
+      obtain ⟨b1, b2⟩ := b x e
+      simp [(hasParameter_false_iff _ _ _).2 b2, b1]
+  | _ => rfl
+
+theorem clauseAdd_sound {s : State} (op : Op) :
+    clauseAdd s op (step s op).2.out (step s op).1 = true := by
+  cases op with
+  | add k p | addPtr k p =>
+    simp only [clauseAdd, step]
+    by_cases hp : p.ok = true
+    swap
+    · simp [hp]
+    by_cases hn : hasParameter s.heap (s.lists k) p.name = true
+    · simp [hp, hn, addParameter, stepLR, Out.ofErr]
+    · simp [hp, hn, addParameter, stepLR, Out.ofErr, State.setList, State.withHeap]
+  | _ => rfl
+
+theorem clauseLookup_sound {s : State} (op : Op) : clauseLookup s op (step s op).2.out = true := by
+  cases op with
+  | which k nm =>
+    simp only [clauseLookup, step]
+    cases e : whichParameterHasName s.heap (s.lists k) nm with
+    | ok i =>
+      obtain ⟨h1, h2⟩ := (which_exact _ _ _ _).1 e
+      simp only [h1, beq_self_eq_true, Bool.true_and, List.all_eq_true, List.mem_range, bne_iff_ne, ne_eq]
+      exact fun j hj => h2 j hj
+    | error x =>
+      have : x = .notfound := by
+        unfold whichParameterHasName at e; split at e <;> cases e; rfl
+      subst this
+      simpa using (which_notfound _ _ _).1 e
+  | has k nm =>
+    simp only [clauseLookup, step, beq_iff_eq, Out.bool.injEq]
+    rw [Bool.eq_iff_iff, hasParameter_iff]; simp
+  | names k => simp [clauseLookup, step]
+  | size k => simp [clauseLookup, step]
+  | getValue k nm =>
+    simp only [clauseLookup, step, getParameterValue]
+    cases e : find? s.heap (s.lists k) nm <;> simp
+  | _ => rfl
+
+
 end Bpp.ParamList
